@@ -324,6 +324,63 @@ def _big_job(args):
     return part
 
 
+def wall_sets():
+    """Grids with whole-number cell widths c = 6..150 (margin exactly 3, four columns): queries
+    lying bit-exactly on the interior walls x = c, 2c, 3c, a nearer end one column to the right
+    and a farther one two columns to the left.  Filing an end and locating a query must use the
+    same arithmetic; x / c and x * (1 / c) differ by one unit in the last place for some c."""
+    out = []
+    for cell in range(6, 151):
+        width = 4 * cell - 6
+        height = 600 - width                # margin (width + height) / 200 = 3 exactly
+        y_mid = 3 + height / 2
+        paths = (((3, 3), (4, 4)), ((3 + width, 3 + height), (5, 5)),
+                 ((4, y_mid), (6, 6)), ((3 * cell + 1, y_mid), (7, 7)),
+                 ((cell + 2, y_mid + 1), (8, 8)))
+        queries = [(float(k * cell), y_mid) for k in (1, 2, 3)] + \
+                  [(float(2 * cell), y_mid + 1), (2 * cell, y_mid)]
+        out.append((paths, queries))
+    return out
+
+
+def _wall_chunk(items):
+    part = core.Part()
+    for paths, queries in items:
+        explore_wall(paths, queries, part)
+    return part
+
+
+def explore_wall(paths, queries, part):
+    """One index (4 bins, no reversal), queried in the full state and after each single
+    removal - not all 120 removal orders."""
+    spatial_grid = _lib()
+    desc = f"Index({[list(map(list, p)) for p in paths]}, 4, False)"
+    for victim in [None] + list(range(len(paths))):
+        try:
+            condition()
+            index = spatial_grid.Index([[list(p[0]), list(p[1])] for p in paths], 4, False)
+            removed = set()
+            if victim is not None:
+                index.remove_path(victim)
+                removed.add(victim)
+        except Exception as exc:            # pylint: disable=broad-except
+            part.violation(f"wall_build:{paths[1]}", f"{desc} raised {exc!r}",
+                           _case(paths, 4, False, [] if victim is None else [victim], None))
+            return
+        end_cells = [(ident, pt, cell_of(index, pt)) for ident, pt in ends_of(paths, False)]
+        for query in queries:
+            bad = check_query(index, paths, False, removed, query, end_cells)
+            part.count("queries")
+            part.count("wall_queries")
+            if bad:
+                part.violation(f"{bad[0]}:wall:{paths[1]}:{victim}:{query}",
+                               f"{desc} after removing {sorted(removed)}: {bad[1]}",
+                               _case(paths, 4, False, sorted(removed), query))
+        part.count("states")
+    part.count("indexes")
+    part.count("nontrivial")
+
+
 def fine_sets():
     """Sub-unit geometry around a cell wall: a frame path fixes the extent to the unit square
     (walls at 1/2 for 2 and 4 bins); a second path has both ends on a fine lattice straddling
@@ -371,6 +428,7 @@ def run(ctx):
         coarse = [(x, y) for x in (-1, 0.5, 1, 3) for y in (-1, 0.5, 1, 3)]
         jobs += [(chunk, [2, 3], coarse, False) for chunk in core.split(threes, 16)]
     part = core.fan_out(ctx, _chunk, jobs)
+    part.merge(core.fan_out(ctx, _wall_chunk, core.split(wall_sets(), 16)))
     big_jobs = [(paths, bins, reverse, kind) for paths in big_layouts(ctx)
                 for bins in (3, 6, 10, 13) for reverse in (False, True)
                 for kind in ("up", "down", "stride")]
@@ -388,7 +446,8 @@ def run(ctx):
                 "distinct removed-set state nearest() for the query lattice (inside, on and "
                 "outside the grid, cell borders); states reached by different orders compared "
                 "field by field; the one-path sets again scaled by 1/8, 16, 2^200 and 2^-200 and shifted by 2^50 along either axis; 625 two-path sets "
-                "with ends on a 3/64 lattice straddling a cell wall queried on a 1/64 lattice; "
+                "with ends on a 3/64 lattice straddling a cell wall queried on a 1/64 lattice; 145 grids "
+                "with whole-number cell widths 6..150 queried exactly on their interior walls; "
                 "3 (4) layouts of 41..150 (400) paths x bins {3,6,10,13} x reverse x "
                 "three removal orders queried after every removal; non-trivial = indexes with "
                 "more than one candidate end",
